@@ -167,4 +167,10 @@ try:
     from .tracetab_auto import AUTO
 except ImportError:
     AUTO = {}
-TRACE = {pid: list(MANUAL.get(pid, [])) + list(AUTO.get(pid, [])) for pid in sorted(set(MANUAL) | set(AUTO))}
+# further branching paths (obligations in lean/Cgm/Trace/<pid>Paths.lean)
+try:
+    from .tracetab_paths import PATHS
+except ImportError:
+    PATHS = {}
+TRACE = {pid: list(MANUAL.get(pid, [])) + list(AUTO.get(pid, [])) + list(PATHS.get(pid, []))
+         for pid in sorted(set(MANUAL) | set(AUTO) | set(PATHS))}
